@@ -1,5 +1,6 @@
 import Qentem.Proofs.JsonStringify
 import Qentem.Proofs.JsonRoundTrip
+import Qentem.Proofs.JsonRoundTripInt
 /-! C08 — Stringify then Parse returns the same tree, and the text is valid JSON. -/
 namespace Qentem.Props.C08
 open Qentem.Json
@@ -27,6 +28,24 @@ theorem unescape_escape (w : Nat) (s rest : List Nat) :
     let r := Qentem.Unicode.unEscapeB w (escapeJson s ++ 34 :: rest) [] [] 0
     r.2 = (escapeJson s).length + 1 ∧ (if r.1.isEmpty then escapeJson s else r.1) = s :=
   Qentem.Json.unescape_escape w s rest
+
+/-- **Stringify then Parse returns the same tree** — proved for every tree without reals: any
+nesting, Undefined and pointer-to-value members anywhere, strings over all code units, unsigned and
+signed 64-bit numbers incl. the extremes, every character width and precision; serializer, escaper,
+integer formatter, un-escaper, integer reader and parser are the linked models. `normI` = pointers
+looked through, Undefined members dropped, non-negative signed numbers come back unsigned (equal
+in value). Reals are the open part (C11). -/
+theorem roundtrip_int_linked (w : Nat) (real : Nat → Nat → List Nat) (prec : Nat) (v : JVal)
+    (hv : IntTree v) (hd : DistinctKeys v) (hu : isUndefined v = false)
+    (hsz : (strValue (numFmt real) prec v []).length < 2 ^ 32) :
+    parse (jsonDeps w) (strValue (numFmt real) prec v []).toArray = .ok (normI v) :=
+  Qentem.Json.roundtrip_int_linked w real prec v hv hd hu hsz
+
+/-- Non-vacuity: a nested tree with an Undefined member, a pointer member, a negative and an
+unsigned number and an escaped string satisfies the hypotheses. -/
+example : IntTree (.obj [([97], .arr [.nat 5, .undef, .ptr (.int (2 ^ 64 - 3)), .str [34, 1]]), ([], .ptr .undef)]) ∧
+    DistinctKeys (.obj [([97], .arr [.nat 5, .undef, .ptr (.int (2 ^ 64 - 3)), .str [34, 1]]), ([], .ptr .undef)]) := by
+  simp [IntTree, IntTreeMembers, IntTreeList, DistinctKeys, DKMembers, DKList, isUndefined]
 
 theorem specItems_ptr_undef (f : Fmt) (prec : Nat) (xs : List JVal) (b : Bool) :
     specItems f prec (xs ++ [.ptr .undef]) b = specItems f prec xs b := by
